@@ -97,10 +97,16 @@ func (fx *FnExec) resolveStatic(caller *ssa.Function, cc *ssa.CallCommon) callTa
 		}
 		return callTarget{kind: ctHavoc, fn: fn, key: key}
 	}
-	// call through a function value: role by provenance
+	// call through a function value: role by provenance, then by named func type
 	role := fx.funcValueRole(caller, cc.Value)
 	if fc, ok := fx.P.Specs.Roles[role]; ok {
 		return callTarget{kind: ctContract, fc: fc, key: role, role: role}
+	}
+	if n, ok := types.Unalias(cc.Value.Type()).(*types.Named); ok {
+		k := "functype:" + typeName(n)
+		if fc, ok := fx.P.Specs.Roles[k]; ok {
+			return callTarget{kind: ctContract, fc: fc, key: k, role: k}
+		}
 	}
 	return callTarget{kind: ctHavoc, key: role}
 }
@@ -334,6 +340,18 @@ func (fx *FnExec) siteAsserts(st *State, fr *frame, cc *ssa.CallCommon, args *ca
 
 func (fx *FnExec) call(st *State, fr *frame, cc *ssa.CallCommon, args *callArgs, site ssa.Instruction, mode string, k func(*State, []Term)) {
 	fx.siteAsserts(st, fr, cc, args, site)
+	// calling a method on a nil interface, or a nil function value, panics
+	if cc.IsInvoke() {
+		fx.emit(st, fr, "nonnil", fx.ord(fr.fn, site, "call."+cc.Method.Name())+"/iface", "(not (= (ityp "+args.fval+") 0))", nil, "")
+	} else {
+		switch cc.Value.(type) {
+		case *ssa.Function, *ssa.MakeClosure, *ssa.Builtin:
+		default:
+			if _, known := st.clos[args.fval]; !known {
+				fx.emit(st, fr, "nonnil", fx.ord(fr.fn, site, "call."+calleeName(cc))+"/func", "(not (= "+args.fval+" 0))", nil, "")
+			}
+		}
+	}
 	// closures whose identity is known on this path
 	if !cc.IsInvoke() {
 		switch cc.Value.(type) {
